@@ -1,4 +1,5 @@
 import OmplModel.Proofs.PlannerProtoRoots
+import OmplModel.Proofs.PlannerProtoControl
 /-!
 # C03 — interrupting, resuming or clearing a planner never corrupts its result
 
@@ -152,6 +153,28 @@ theorem alloc_balanced_after_clear (cs : CoreSpec σ δ D C) (hl : LawfulCore cs
 /-- the RRT-like tree core satisfies the laws the generic theorems assume -/
 theorem rrt_core_lawful : LawfulCore (rrtCore : CoreSpec σ δ (Draw σ δ) (Tree σ)) := rrt_lawful
 
+/-- the control-RRT core with intermediate states satisfies the same laws: whatever the propagation length, the
+position of the first goal-satisfying propagated state, an invalid last step or a too short propagation, every
+propagated state is adopted by exactly one motion or freed exactly once (`iterate_replay`), the tree only grows and
+reported motions exist. -/
+theorem crrt_core_lawful : LawfulCore (crrtCore : CoreSpec σ δ (CDraw σ δ) (Tree σ)) := crrt_lawful
+
+/-- **Allocations are balanced for control::RRT with intermediate states**, for every history and every `k`: the
+allocation log (start motions, `rmotion->state`, `xstate`, the `pstates` vector of every propagation — adopted or
+freed —, path clones) replays without a double free or a re-used id, and the live states are exactly the states
+owned by motions plus those cloned into solution paths.  (A core that forgets the "free any states after we hit the
+goal" loop is not lawful: its log leaves the trailing propagated states live.) -/
+theorem alloc_balanced_control (P : Params σ δ) (ops : List (Op σ (CDraw σ δ))) :
+    ∃ L, replay ([], 0) (reach crrtCore P ops).log = some (L, (reach crrtCore P ops).next) ∧
+      L.Perm ((crrtCore (σ := σ) (δ := δ)).owned (reach crrtCore P ops).core ++ (reach crrtCore P ops).handed) :=
+  alloc_balanced crrtCore crrt_lawful P ops
+
+/-- … and after `clear()` nothing the control planner allocated for itself is live -/
+theorem alloc_balanced_control_after_clear (P : Params σ δ) (ops : List (Op σ (CDraw σ δ))) :
+    ∃ L, replay ([], 0) (clear crrtCore (reach crrtCore P ops)).log = some (L, (reach crrtCore P ops).next) ∧
+      L.Perm (reach crrtCore P ops).handed :=
+  alloc_balanced_after_clear crrtCore crrt_lawful P ops
+
 /-! ## Non-vacuity: a concrete run of the RRT-like core (states and distances are `Nat`) -/
 
 def Pn : Params Nat Nat := { ltD := fun a b => decide (a < b), inf := 1000, zero := 0, pathLen := List.length }
@@ -171,6 +194,18 @@ example : (solve coreN Pn (reach coreN Pn [.setProblemDefinition 1 [(7, false)]]
 example : (reach coreN Pn [.setProblemDefinition 1 [(7, true)], .solve 0 []]).log =
     [.alloc 0, .alloc 1, .alloc 2, .free 2, .free 1] := by decide
 example : LawfulCore coreN := rrt_lawful
+
+/-- control core, one loop body from a one-motion tree with fresh id 5: four steps propagated, the fourth invalid
+(allocated and freed at once), the goal satisfied by the SECOND state: states 5 and 6 are adopted, state 7 is freed -/
+def ccoreN : CoreSpec Nat Nat (CDraw Nat Nat) (Tree Nat) := crrtCore
+def treeN : Tree Nat := #[⟨7, none, 0⟩]
+def cdrawN : CDraw Nat Nat := ⟨0, [(10, false, 3), (11, true, 0), (12, false, 9)], true, true⟩
+example : (ccoreN.iterate treeN 5 cdrawN).evs =
+    [.alloc 5, .alloc 6, .alloc 7, .alloc 8, .free 8, .free 7] := by decide
+example : (ccoreN.iterate treeN 5 cdrawN).res = [(1, false, 3), (2, true, 0)] := by decide
+example : (ccoreN.iterate treeN 5 cdrawN).core.size = 3 ∧ (ccoreN.iterate treeN 5 cdrawN).next = 9 := by decide
+/-- a propagation shorter than `getMinControlDuration()`: everything is freed, nothing adopted -/
+example : (ccoreN.iterate treeN 5 ⟨0, [(10, false, 3)], false, false⟩).evs = [.alloc 5, .free 5] := by decide
 /-- the hypothesis of `solve_never_empty_path` is satisfiable by histories that switch the problem definition
 (switch on a non-empty tree, then `clear()`), and is violated by the same history without the `clear()` -/
 example : dirtyAfter Pn (M.init rc) false
